@@ -529,6 +529,22 @@ impl Subscriber<St, Act> for ScriptedSub {
     }
 }
 
+/// an output type whose equality is a tolerance comparison (|a - b| <= 1): reflexive and symmetric but not
+/// transitive, so "differs from the value last delivered" and "differs from the value last seen" part ways
+#[derive(Clone, Copy, Debug)]
+pub struct Near(pub u8);
+impl PartialEq for Near {
+    fn eq(&self, o: &Near) -> bool {
+        self.0.abs_diff(o.0) <= 1
+    }
+}
+pub struct NearSelector;
+impl Selector<St, Near> for NearSelector {
+    fn select(&self, st: &St) -> Near {
+        Near(st.sel)
+    }
+}
+
 pub struct SelSelector;
 impl Selector<St, u8> for SelSelector {
     fn select(&self, st: &St) -> u8 {
